@@ -20,7 +20,8 @@ Definition u0 : universe :=
   mkU [([a], v 0 1); ([a], v 0 2); ([b], v 0 1); ([b], v 0 5); ([c], v 0 1)]
       [(([a], v 0 2), plain ([b], v 0 1))]
       [(([a], v 0 1), [p]); (([a], v 0 2), [p]); (([b], v 0 1), [q]); (([b], v 0 5), [q]); (([c], v 0 1), [r])]
-      [((([a], v 0 2), [p]), ([b; q], Some 0))].
+      [((([a], v 0 2), [p]), ([b; q], Some 0))]
+      [].
 Definition m0 := main0 [[]] [([a; p], Some 0)].
 Definition d0 : list dep := [plain ([c], v 0 1)].
 Definition f0 : list dep := [plain ([a], v 0 2); plain ([b], v 0 1)].
@@ -33,7 +34,7 @@ Example w0_check_rejects_input : check_model 1000 u0 m0 d0 = CErr true false fal
 Proof. vm_compute. reflexivity. Qed.
 (* presentation: the same facts in another order, with repetitions *)
 Definition u0' : universe :=
-  mkU (rev (u_mods u0) ++ u_mods u0) (u_deps u0) (rev (u_pkgs u0)) (u_imps u0 ++ u_imps u0).
+  mkU (rev (u_mods u0) ++ u_mods u0) (u_deps u0) (rev (u_pkgs u0)) (u_imps u0 ++ u_imps u0) [].
 Example w0_order : tidy_model 10 1000 u0' m0 (d0 ++ d0) = TOk f0.
 Proof. vm_compute. reflexivity. Qed.
 
@@ -44,7 +45,8 @@ Definition u1 : universe :=
   mkU [([a], v 0 1); ([a; x], v 0 1); ([c], v 0 1)]
       [(([c], v 0 1), plain ([a; x], v 0 1))]
       [(([a], v 0 1), [x; y]); (([a; x], v 0 1), [y]); (([a; x], v 0 1), [z]); (([c], v 0 1), [q])]
-      [((([c], v 0 1), [q]), ([a; x; z], Some 0))].
+      [((([c], v 0 1), [q]), ([a; x; z], Some 0))]
+      [].
 Definition m1 := main0 [[]] [([a; x; y], Some 0); ([c; q], Some 0)].
 Definition d1 : list dep := [plain ([a], v 0 1); plain ([c], v 0 1)].
 Definition f1 : list dep := [plain ([a], v 0 1); plain ([a; x], v 0 1); plain ([c], v 0 1)].
@@ -63,7 +65,8 @@ Definition u2 : universe :=
   mkU [([a], v 0 1); ([b], v 1 0); ([b], v 2 0)]
       [(([a], v 0 1), plain ([b], v 2 0))]
       [(([a], v 0 1), [p]); (([b], v 1 0), [x]); (([b], v 2 0), [y])]
-      [((([a], v 0 1), [p]), ([b; y], Some 2))].
+      [((([a], v 0 1), [p]), ([b; y], Some 2))]
+      [].
 Definition m2 := main0 [[]] [([b; x], None); ([a; p], Some 0)].
 Definition d2 : list dep := [plain ([b], v 1 0)].
 Definition f2 : list dep := [plain ([a], v 0 1); plain ([b], v 1 0); plain ([b], v 2 0)].
@@ -82,13 +85,36 @@ Definition u3 : universe :=
   mkU [([a], v 0 1); ([b], v 0 1); ([b], v 0 2); ([c], v 0 1)]
       [(([a], v 0 1), plain ([b], v 0 1)); (([a], v 0 1), plain ([c], v 0 1)); (([c], v 0 1), plain ([b], v 0 2))]
       [(([a], v 0 1), [p]); (([b], v 0 1), [q]); (([b], v 0 2), [q]); (([c], v 0 1), [r])]
-      [((([a], v 0 1), [p]), ([b; q], Some 0)); ((([a], v 0 1), [p]), ([c; r], Some 0))].
+      [((([a], v 0 1), [p]), ([b; q], Some 0)); ((([a], v 0 1), [p]), ([c; r], Some 0))]
+      [].
 Definition m3 := main0 [[]] [([a; p], Some 0)].
 Definition f3 : list dep := [plain ([a], v 0 1); plain ([b], v 0 1); plain ([c], v 0 1)].
 
 Example w3_tidy : tidy_model 10 1000 u3 m3 [] = TOk f3.
 Proof. vm_compute. reflexivity. Qed.
 Example w3_accepted : tidy_model 10 1000 u3 m3 f3 = TOk f3 /\ check_model 1000 u3 m3 f3 = CAccept.
+Proof. vm_compute. split; reflexivity. Qed.
+
+(* --- W5 (finding F-C17-4): Tidy(Tidy(x)) <> Tidy(x), both succeed.  b is reached
+   only through a, so in the first run b's requirement c@v1 is pruned from the module
+   graph and b's unversioned import "c/z" falls back to the main module's default
+   (c@v2); tidy promotes b to a requirement; in the second run b's requirements are
+   read, "c/z" inside b means c@v1, and c@v1 is added. ---------------------------- *)
+Definition u5 : universe :=
+  mkU [([a], v 0 1); ([b], v 0 1); ([c], v 1 0); ([c], v 2 0)]
+      [(([a], v 0 1), plain ([b], v 0 1)); (([b], v 0 1), plain ([c], v 1 0))]
+      [(([a], v 0 1), [p]); (([b], v 0 1), [x]); (([c], v 1 0), [z]); (([c], v 2 0), [z])]
+      [((([a], v 0 1), [p]), ([b; x], Some 0)); ((([b], v 0 1), [x]), ([c; z], None))]
+      [].
+Definition m5 := main0 [[]] [([a; p], Some 0); ([c; z], Some 2)].
+Definition f5 : list dep := [plain ([a], v 0 1); plain ([b], v 0 1); plain ([c], v 2 0)].
+Definition f5' : list dep := [plain ([a], v 0 1); plain ([b], v 0 1); plain ([c], v 1 0); plain ([c], v 2 0)].
+
+Example w5_tidy : tidy_model 10 1000 u5 m5 [] = TOk f5.
+Proof. vm_compute. reflexivity. Qed.
+Example w5_second_tidy_differs : tidy_model 10 1000 u5 m5 f5 = TOk f5' /\ check_model 1000 u5 m5 f5 = CReject.
+Proof. vm_compute. split; reflexivity. Qed.
+Example w5_third_tidy_stable : tidy_model 10 1000 u5 m5 f5' = TOk f5' /\ check_model 1000 u5 m5 f5' = CAccept.
 Proof. vm_compute. split; reflexivity. Qed.
 
 (* --- W4: a lexical candidate that provides nothing still drives version selection.
@@ -99,8 +125,56 @@ Definition u4 : universe :=
   mkU [([a], v 0 1); ([a; x], v 0 1); ([b], v 0 1); ([b], v 0 3); ([c], v 0 1)]
       [(([a; x], v 0 1), plain ([b], v 0 3)); (([c], v 0 1), plain ([b], v 0 1))]
       [(([a], v 0 1), [x; y]); (([a; x], v 0 1), [z]); (([b], v 0 1), [p]); (([b], v 0 3), [p]); (([c], v 0 1), [q])]
-      [((([c], v 0 1), [q]), ([b; p], Some 0))].
+      [((([c], v 0 1), [q]), ([b; p], Some 0))]
+      [].
 Definition m4 := main0 [[]] [([a; x; y], Some 0); ([c; q], Some 0)].
 Example w4_tidy : tidy_model 10 1000 u4 m4 [] =
                   TOk [plain ([a], v 0 1); plain ([b], v 0 3); plain ([c], v 0 1)].
 Proof. vm_compute. reflexivity. Qed.
+
+(* ------------------------------------------------------------------------ *)
+(* Refutations: the faithful model does NOT satisfy the property as worded.   *)
+From Verif Require Import Tidy.Sets Tidy.Proofs.
+
+Theorem tidy_idempotent_refuted :
+  exists u mm ds F, tidy_model 10 1000 u mm ds = TOk F /\ tidy_model 10 1000 u mm F <> TOk F.
+Proof. exists u1, m1, d1, f1. split; [exact w1_tidy|]. rewrite w1_second_tidy_fails. discriminate. Qed.
+
+Theorem tidy_idempotent_refuted_default_lost :
+  exists u mm ds F, tidy_model 10 1000 u mm ds = TOk F /\ tidy_model 10 1000 u mm F = TErr true false false.
+Proof. exists u2, m2, d2, f2. split; [exact w2_tidy | exact w2_second_tidy_fails]. Qed.
+
+Theorem tidy_idempotent_refuted_grows :
+  exists u mm ds F F', tidy_model 10 1000 u mm ds = TOk F /\ tidy_model 10 1000 u mm F = TOk F' /\ F <> F'.
+Proof.
+  exists u5, m5, [], f5, f5'. split; [exact w5_tidy|]. split; [apply w5_second_tidy_differs|]. discriminate.
+Qed.
+
+Theorem check_accepts_output_refuted :
+  exists u mm ds F, tidy_model 10 1000 u mm ds = TOk F /\ check_model 1000 u mm F <> CAccept.
+Proof. exists u1, m1, d1, f1. split; [exact w1_tidy|]. rewrite w1_check_fails_on_output. discriminate. Qed.
+
+Theorem mvs_closed_refuted :
+  exists u mm ds F, tidy_model 10 1000 u mm ds = TOk F /\ check_model 1000 u mm F = CAccept /\ ~ mvs_closed u F.
+Proof.
+  exists u3, m3, [], f3. split; [exact w3_tidy|]. split; [apply w3_accepted|].
+  intros H.
+  specialize (H (plain ([c], v 0 1)) (plain ([b], v 0 2)) (plain ([b], v 0 1))).
+  apply H; try reflexivity; vm_compute; auto.
+Qed.
+
+(* non-vacuity of the positive theorems: an accepted, tidy module file *)
+Example w0_is_tidy : IsTidy (norm_universe u0) (norm_main m0) f0.
+Proof. apply (accepted_is_tidy _ _ 1000). vm_compute. reflexivity. Qed.
+Example w0_wf : wf_file (norm_main m0) f0.
+Proof.
+  apply (tidy_output_wf (norm_universe u0) (norm_main m0)) with (fuel := 10%nat) (ifuel := 1000%nat) (ds := norm_deps d0).
+  - vm_compute. intros n Hn. repeat (destruct Hn as [<-|Hn]; [discriminate|]). destruct Hn.
+  - vm_compute. reflexivity.
+Qed.
+Example w0_mvs_closed : mvs_closed (norm_universe u0) f0.
+Proof.
+  intros d q d' Hd Hq Hd' E. vm_compute in Hd, Hd'.
+  destruct Hd as [<-|[<-|[]]]; vm_compute in Hq; try tauto;
+    destruct Hq as [<-|[]]; destruct Hd' as [<-|[<-|[]]]; vm_compute in E; try discriminate; vm_compute; discriminate.
+Qed.
